@@ -13,6 +13,9 @@ pub struct RunRecord {
     pub inv: Invocation,
     pub world: World,
     pub expected: Expected,
+    /// a second acceptable verdict: when reads on a file handle met transient errors the
+    /// program may give up on that file (`expected`) or retry until it succeeds (`alt`)
+    pub alt: Option<Expected>,
     pub run: RunResult,
 }
 
@@ -80,9 +83,18 @@ pub fn execute(bin: &Path, scratch: &Scratch, case: &Case) -> Result<Vec<RunReco
             .filter(|f| run.trace.fired.iter().any(|x| x.site == f.site && x.path == f.path && x.nth == f.nth && x.kind == f.kind))
             .cloned()
             .collect();
-        let expected = model::expected(&world, &inv.opts, inv.stdin.as_deref(), &effective);
+        // transient errors on a file handle: treated by the model as a failed read of that file …
+        let mut as_read_failure = effective.clone();
+        let mut had_handle_faults = false;
+        for f in effective.iter().filter(|f| f.site == "fs.file.read") {
+            had_handle_faults = true;
+            as_read_failure.push(simplan::Fault { site: "fs.read".into(), path: f.path.clone(), nth: 0, kind: f.kind.clone(), arg: 0 });
+        }
+        let expected = model::expected(&world, &inv.opts, inv.stdin.as_deref(), &as_read_failure);
+        // … or, for a program that retries until the read succeeds, as no fault at all
+        let alt = if had_handle_faults { Some(model::expected(&world, &inv.opts, inv.stdin.as_deref(), &effective)) } else { None };
         let next = world_after(&world, &run);
-        recs.push(RunRecord { inv: inv.clone(), world: world.clone(), expected, run });
+        recs.push(RunRecord { inv: inv.clone(), world: world.clone(), expected, alt, run });
         world = next;
     }
     Ok(recs)
@@ -124,10 +136,26 @@ fn decorate_config(vs: Vec<Violation>, rec: &RunRecord) -> Vec<Violation> {
 pub fn oracles_for(property: &str, recs: &[RunRecord]) -> Vec<Violation> {
     let mut out = Vec::new();
     for (i, rec) in recs.iter().enumerate() {
-        let (inv, ex, run, world) = (&rec.inv, &rec.expected, &rec.run, &rec.world);
+        let first = oracles_for_one(property, i, rec, &rec.expected);
+        if first.is_empty() {
+            continue;
+        }
+        // "may fail, never return wrong data": either verdict is acceptable, nothing else is
+        match &rec.alt {
+            Some(alt) if oracles_for_one(property, i, rec, alt).is_empty() => {}
+            _ => out.extend(first),
+        }
+    }
+    out
+}
+
+fn oracles_for_one(property: &str, i: usize, rec: &RunRecord, ex: &Expected) -> Vec<Violation> {
+    let mut out = Vec::new();
+    {
+        let (inv, run, world) = (&rec.inv, &rec.run, &rec.world);
         out.extend(oracle::liveness(property, run, i));
         if crate::oracle::sim_reserved(run.status) {
-            continue;
+            return out;
         }
         let stdin_mode = ex.selection.stdin;
         match property {
